@@ -1176,3 +1176,124 @@ def eval_region(fn, entry, env, max_steps=2000, stop_at=None):
                 return ('panic', bi, env)
         else:
             return ('arm', bi, env)
+
+
+# --------------------------------------------------------------------------
+# P7: field read/write sets
+def _chain(place):
+    ch = []
+    for pr in place['p']:
+        if isinstance(pr, dict) and 'f' in pr:
+            ch.append((pr['adt'], pr['f']))
+        elif isinstance(pr, dict) and 'downcast' in pr:
+            ch.append(('variant', pr['downcast']))
+    return tuple(ch)
+
+
+def field_accesses(f):
+    """Yield (kind, chain, block, base_local, base_ty, has_deref) for every place mentioned in non-cleanup code of f.
+    kind: 'r' read, 'w' write, 'rw' mutable borrow, 'b' shared borrow."""
+    def base(pl):
+        return pl['l'], f.locals[pl['l']]['ty'], ('deref' in pl['p'])
+
+    def op(o, bi):
+        if o['k'] in ('copy', 'move'):
+            l, ty, dr = base(o['place'])
+            yield ('r', _chain(o['place']), bi, l, ty, dr)
+    for bi, b in enumerate(f.blocks):
+        if b['cleanup']:
+            continue
+        for s in b['stmts']:
+            l, ty, dr = base(s['lhs'])
+            yield ('w', _chain(s['lhs']), bi, l, ty, dr)
+            rv = s['rv']
+            k = rv['k']
+            if k in ('use', 'un', 'cast', 'repeat'):
+                yield from op(rv['a'], bi)
+            elif k == 'bin':
+                yield from op(rv['a'], bi)
+                yield from op(rv['b'], bi)
+            elif k == 'agg':
+                for o in rv['ops']:
+                    yield from op(o, bi)
+            elif k in ('ref', 'rawptr'):
+                l, ty, dr = base(rv['place'])
+                yield ('rw' if rv.get('mut') else 'b', _chain(rv['place']), bi, l, ty, dr)
+            elif k == 'discr':
+                l, ty, dr = base(rv['place'])
+                yield ('r', _chain(rv['place']) + (('discr', ''),), bi, l, ty, dr)
+        t = b['term']
+        if t['k'] == 'call':
+            for a in t['args']:
+                yield from op(a, bi)
+            l, ty, dr = base(t['dest'])
+            yield ('w', _chain(t['dest']), bi, l, ty, dr)
+        elif t['k'] == 'switch':
+            yield from op(t['discr'], bi)
+
+
+def strip_ref(ty):
+    m = re.match(r"^&'\{erased\} (mut )?(.*)$", ty)
+    if m:
+        return m.group(2)
+    m = re.match(r"^\*(const|mut) (.*)$", ty)
+    if m:
+        return m.group(2)
+    return None
+
+
+def place_type(f, place):
+    """Best-effort type of a MIR place (string) using local types and the crate's ADT table; None if unknown."""
+    ty = f.locals[place['l']]['ty']
+    variant = None
+    for pr in place['p']:
+        if ty is None:
+            return None
+        if pr == 'deref':
+            ty = strip_ref(ty)
+            if ty is None:
+                m = None
+                return None
+        elif isinstance(pr, dict) and 'downcast' in pr:
+            variant = pr['downcast']
+        elif isinstance(pr, dict) and 'f' in pr:
+            adt = f.facts.adts.get(pr['adt'])
+            nty = None
+            if adt:
+                for v in adt['variants']:
+                    if variant is not None and v['name'] != variant:
+                        continue
+                    for fl in v['fields']:
+                        if fl['name'] == pr['f']:
+                            nty = fl['ty']
+                    if nty:
+                        break
+                # generic parameter substitution for the one generic local ADT we care about
+                if nty == 'A' and '<' in ty:
+                    nty = ty[ty.index('<') + 1:ty.rindex('>')]
+            elif pr['adt'] == 'std::option::Option' and variant == 'Some' and ty.startswith('std::option::Option<'):
+                nty = ty[len('std::option::Option<'):-1]
+            ty = nty
+            variant = None
+        else:
+            return None
+    return ty
+
+
+def rewrite(e, fn):
+    """Bottom-up structural rewrite: fn(node) -> replacement or None (keep)."""
+    if not isinstance(e, tuple) or not e:
+        return e
+    r = fn(e)
+    if r is not None:
+        return r
+    k = e[0]
+    if k == 'phi':
+        return ('phi', frozenset(rewrite(x, fn) for x in e[1]))
+    if k == 'call':
+        return ('call', e[1], tuple(rewrite(a, fn) for a in e[2]), e[3])
+    if k == 'agg':
+        return ('agg', e[1], tuple(rewrite(a, fn) for a in e[2]))
+    if k in ('const', 'bytes', 'param', 'local', 'fnptr', 'uninit', 'cyc', 'modby'):
+        return e
+    return tuple(rewrite(x, fn) if isinstance(x, tuple) and x and isinstance(x[0], str) else x for x in e)
